@@ -143,6 +143,7 @@ RunResult execute_plan(const Plan &p, int armed, Stats &st) {
                     Plan q = derive_generator_plan(p, ti, oi, map);
                     for (auto &op : q.tasks[0].ops)
                         if (op.kind == P_INIT && (op.flags & (F_SYSTEM | F_NULLCB))) op.flags ^= (F_SYSTEM | F_NULLCB);
+                    if (plan_avoid_known(q)) continue;   // the twin would step on a listed known finding
                     WorldRun T;
                     run_world(T, q, PR_NONE, nullptr, true, order_sequential(q), 0);
                     PrngObj &x = T.w->ts[0]->p[oi];
